@@ -15,7 +15,7 @@ from fractions import Fraction
 
 from hypothesis import strategies as st
 
-from vf import c19_rng, core, rngenum
+from vf import c19_flags, c19_rng, core, rngenum
 from vf import tablesim as ts
 
 PROP = "C19"
@@ -24,7 +24,10 @@ FLOOR = 0.25
 RULE = ("Hypothesis-generated dynamic programs: an ego behavior (or a top-level compose block) "
         "running `do choose` / `do shuffle` over 1-4 sub-behaviours (sub-scenarios), list or dict "
         "form with integer/dyadic/zero weights, duplicates, nesting one level deep, repetition in "
-        "a loop, preconditions that read a step-indexed truth table, instantaneous items, plus "
+        "a loop, 0-3 preconditions per item that read a step-indexed truth table or a mutable flag "
+        "(harness-owned or an attribute of the agent) set by other items, instantaneous items "
+        "(so that the state read by preconditions changes between two picks of one time step), "
+        "one behaviour object bound to a variable and offered by two statements, plus "
         "Uniform/Discrete/DiscreteRange evaluated at run time in behaviors, monitors and compose "
         "blocks (bound once to a variable or re-evaluated); the scene is generated once, every RNG "
         "outcome of the simulation is enumerated.  Non-trivial = the reference law has at least 2 "
@@ -39,6 +42,10 @@ ASSUMPTIONS = [
     "(scenarios' compose blocks, then monitors, then the time limit, then behaviors), `do` returns "
     "within the step in which the sub-behaviour/scenario finishes",
     "a pick in which every enabled item has weight zero is not judged (the reference is silent)",
+    "an item is eligible iff all of its `precondition:` lines hold at the moment of the pick "
+    "(invariants are not generated: the statement speaks of preconditions only)",
+    "a behaviour object that has already been run and is offered again is not judged (the "
+    "reference is silent on re-running one object)",
 ]
 
 MAX_LEAVES = 3000
@@ -55,6 +62,10 @@ GENEROUS_STEPS = 44
 #      | ["letdist", var, dist] | ["takevar", var] | ["logvar", var]
 #      | ["choose"|"shuffle", "list"|"dict", [[name, weight], ...]] | ["do", name]
 #      | ["cond", row, [stmt]] | ["repeat", n, [stmt]]
+#      | ["set", flag, value]            (flags start at 0)
+#      | ["bind", var, name]             (var = name(): one behaviour object, items refer to "$var")
+# pre  = None | row | [cond, ...] (all must hold);  cond = row | ["flag", flag, value]
+# prog["flagstore"] = "harness" (vf.c19_flags) | "attr" (attribute of the ego, behaviour level)
 # dist = ["uni", [v...]] | ["disc", [[v, w]...]] | ["dr", lo, hi] | ["drw", lo, [w...]]
 
 def p_dist(d):
@@ -70,13 +81,53 @@ def p_dist(d):
     raise ValueError(d)
 
 
+def p_item(n):
+    return "_" + n[1:] if n.startswith("$") else f"{n}()"
+
+
 def p_items(form, items):
     if form == "list":
-        return ", ".join(f"{n}()" for n, _ in items)
-    return "{" + ", ".join(f"{n}(): {w!r}" for n, w in items) + "}"
+        return ", ".join(p_item(n) for n, _ in items)
+    return "{" + ", ".join(f"{p_item(n)}: {w!r}" for n, w in items) + "}"
 
 
-def p_stmts(stmts, ind, level, out, counter):
+def pres_of(d):
+    p = d["pre"]
+    if p is None:
+        return []
+    return [p] if isinstance(p, str) else list(p)
+
+
+def p_cond(c, store):
+    if isinstance(c, str):
+        return f"T({c!r})"
+    if c[0] == "flag":
+        if store == "attr":
+            return f"self.{c[1]} == {c[2]!r}"
+        return f"FLAG({c[1]!r}) == {c[2]!r}"
+    raise ValueError(c)
+
+
+def flags_of(prog):
+    names = set()
+
+    def walk(stmts):
+        for s in stmts:
+            if s[0] == "set":
+                names.add(s[1])
+            elif s[0] in ("cond", "repeat"):
+                walk(s[2])
+
+    walk(prog["main"])
+    for d in prog["defs"]:
+        walk(d["body"])
+        for c in pres_of(d):
+            if not isinstance(c, str):
+                names.add(c[1])
+    return sorted(names)
+
+
+def p_stmts(stmts, ind, level, out, counter, store="harness"):
     pad = "    " * ind
     if not stmts:
         out.append(pad + "pass")
@@ -104,11 +155,18 @@ def p_stmts(stmts, ind, level, out, counter):
             out.append(f"{pad}do {s[1]}()")
         elif k == "cond":
             out.append(f"{pad}if T({s[1]!r}):")
-            p_stmts(s[2], ind + 1, level, out, counter)
+            p_stmts(s[2], ind + 1, level, out, counter, store)
         elif k == "repeat":
             counter[0] += 1
             out.append(f"{pad}for _i{counter[0]} in range({s[1]}):")
-            p_stmts(s[2], ind + 1, level, out, counter)
+            p_stmts(s[2], ind + 1, level, out, counter, store)
+        elif k == "set":
+            if store == "attr":
+                out.append(f"{pad}self.{s[1]} = {s[2]!r}")
+            else:
+                out.append(f"{pad}SETFLAG({s[1]!r}, {s[2]!r})")
+        elif k == "bind":
+            out.append(f"{pad}_{s[1]} = {s[2]}()")
         else:
             raise ValueError(k)
 
@@ -131,26 +189,33 @@ EGODRAW = '''behavior Ego():
 def emit(prog):
     level = prog["level"]
     out = ["from vf.tablesim import T, LOG"]
+    store = prog.get("flagstore", "harness")
+    flags = flags_of(prog)
+    if store == "attr" and level != "behavior":
+        raise ValueError("attribute flags need an agent")
+    if flags and store == "harness":
+        out.append("from vf.c19_flags import FLAG, SETFLAG")
     counter = [0]
     for d in prog["defs"]:
         if level == "behavior":
             out.append(f"behavior {d['name']}():")
-            if d["pre"]:
-                out.append(f"    precondition: T({d['pre']!r})")
-            p_stmts(d["body"], 1, level, out, counter)
+            for c in pres_of(d):
+                out.append(f"    precondition: {p_cond(c, store)}")
+            p_stmts(d["body"], 1, level, out, counter, store)
         else:
             out.append(f"scenario {d['name']}():")
-            if d["pre"]:
-                out.append(f"    precondition: T({d['pre']!r})")
+            for c in pres_of(d):
+                out.append(f"    precondition: {p_cond(c, store)}")
             out.append("    compose:")
-            p_stmts(d["body"], 2, level, out, counter)
+            p_stmts(d["body"], 2, level, out, counter, store)
     if prog.get("monitor"):
         out.append(MONITOR.rstrip())
     if level == "behavior":
         out.append("behavior Main():")
-        p_stmts(prog["main"], 1, level, out, counter)
+        p_stmts(prog["main"], 1, level, out, counter, store)
         out.append("    terminate")
-        out.append("ego = new Object with behavior Main()")
+        attrs = "".join(f", with {f} 0" for f in flags) if store == "attr" else ""
+        out.append("ego = new Object with behavior Main()" + attrs)
         if prog.get("monitor"):
             out.append("require monitor Mon()")
     else:
@@ -162,7 +227,7 @@ def emit(prog):
         if prog.get("monitor"):
             out.append("        require monitor Mon()")
         out.append("    compose:")
-        p_stmts(prog["main"], 2, level, out, counter)
+        p_stmts(prog["main"], 2, level, out, counter, store)
     return "\n".join(out) + "\n"
 
 
@@ -193,6 +258,22 @@ class Ref:
     def cell(self, row):
         return bool(self.table[row][self.t])
 
+    def holds(self, c):
+        if isinstance(c, str):
+            return self.cell(c)
+        if c[0] == "flag":
+            return self.state.get(c[1], 0) == c[2]
+        raise ValueError(c)
+
+    def lookup(self, item):
+        """Definition offered by an item: a class name, or "$var" = a bound behaviour object."""
+        if item.startswith("$"):
+            return self.defs[self.bound[item]["def"]]
+        return self.defs[item]
+
+    def eligible(self, item):
+        return all(self.holds(c) for c in pres_of(self.lookup(item)))
+
     def draw(self, d):
         if d[0] == "uni":
             return d[1][self.en.choose([Fraction(1, len(d[1]))] * len(d[1]))]
@@ -205,10 +286,35 @@ class Ref:
             return d[1] + self.en.choose([Fraction(w) for w in d[2]])
         raise ValueError(d)
 
-    def pick(self, form, remaining):
-        """One pick among `remaining` = [(index, name, weight)]."""
-        enabled = [it for it in remaining
-                   if self.defs[it[1]]["pre"] is None or self.cell(self.defs[it[1]]["pre"])]
+    def pick(self, form, remaining, polls):
+        """One pick among `remaining` = [(index, item, weight)].
+
+        `polls` remembers, per behaviour/scenario *object* offered by the statement being executed
+        (index -> (step, eligible)), the previous time its preconditions were consulted: used only
+        to classify the case, never to decide."""
+        enabled = []
+        for it in remaining:
+            if it[1].startswith("$"):
+                inst = self.bound[it[1]]
+                if inst["started"]:
+                    raise Undefined()  # re-offering an object that has already run
+                memo, key = inst["polls"], 0
+            else:
+                memo, key = polls, it[0]
+            ok = self.eligible(it[1])
+            pres = pres_of(self.lookup(it[1]))
+            if not ok and len(pres) >= 2 and self.holds(pres[0]):
+                self.flags.add("later-precondition-decides")
+            prev = memo.get(key)
+            if prev is not None and prev[0] == self.t:
+                self.flags.add("repolled-within-step")
+                if prev[1] != ok:
+                    self.flags.add("eligibility-changed-within-step")
+                    if it[1].startswith("$"):
+                        self.flags.add("shared-object-eligibility-changed-within-step")
+            memo[key] = (self.t, ok)
+            if ok:
+                enabled.append(it)
         if not enabled:
             raise Reject()
         ws = [Fraction(1) if form == "list" else Fraction(it[2]) for it in enabled]
@@ -246,14 +352,19 @@ class Ref:
                 yield from self.invoke(s[1])
             elif k == "choose":
                 items = [(i, n, w) for i, (n, w) in enumerate(s[2])]
-                it = self.pick(s[1], items)
+                it = self.pick(s[1], items, {})
                 yield from self.invoke(it[1])
             elif k == "shuffle":
                 remaining = [(i, n, w) for i, (n, w) in enumerate(s[2])]
+                polls = {}
                 while remaining:
-                    it = self.pick(s[1], remaining)
+                    it = self.pick(s[1], remaining, polls)
                     remaining.remove(it)
                     yield from self.invoke(it[1])
+            elif k == "set":
+                self.state[s[1]] = s[2]
+            elif k == "bind":
+                self.bound["$" + s[1]] = {"def": s[2], "started": False, "polls": {}}
             elif k == "cond":
                 if self.cell(s[1]):
                     yield from self.run(s[2], env)
@@ -264,8 +375,12 @@ class Ref:
                 raise ValueError(k)
 
     def invoke(self, name):
-        d = self.defs[name]
-        if d["pre"] is not None and not self.cell(d["pre"]):
+        d = self.lookup(name)
+        if name.startswith("$"):
+            if self.bound[name]["started"]:
+                raise Undefined()
+            self.bound[name]["started"] = True
+        if not self.eligible(name):
             raise Reject()
         yield from self.run(d["body"], {})
 
@@ -277,6 +392,8 @@ class Ref:
         """One run; returns the observable outcome."""
         prog = self.prog
         self.log = []
+        self.state = {}  # flags, all 0 at the start of every simulation
+        self.bound = {}
         mlog, actions = [], []
         L = prog["maxSteps"]
         behavior_level = prog["level"] == "behavior"
@@ -371,6 +488,53 @@ def selfcheck():
     law, _, _ = ref_law(p6)
     if law != {(((x,), (x,), (y,)), (), (), 3): Q for x in (0, 1) for y in (0, 1)}:
         raise core.HarnessError(f"C19 reference self-check 6: {law}")
+    # two preconditions: the item is eligible only where BOTH rows hold
+    d7 = [{"name": "A", "pre": None, "body": [["take", "a"]]},
+          {"name": "B", "pre": ["p", "q"], "body": [["take", "b"]]}]
+    p7 = dict(base, defs=d7, main=[["choose", "list", [["A", 1], ["B", 1]]]],
+              table={"p": [1] * 4, "q": [0] * 4})
+    law, flags, _ = ref_law(p7)
+    if law != {((("a",),), (), (), 1): Fraction(1)} or "later-precondition-decides" not in flags:
+        raise core.HarnessError(f"C19 reference self-check 7: {law} {flags}")
+    law, flags, _ = ref_law(dict(p7, table={"p": [0] * 4, "q": [1] * 4}))
+    if law != {((("a",),), (), (), 1): Fraction(1)} or "later-precondition-decides" in flags:
+        raise core.HarnessError(f"C19 reference self-check 8: {law} {flags}")
+    law, _, _ = ref_law(dict(p7, table={"p": [1] * 4, "q": [1] * 4}))
+    if law != {((("a",),), (), (), 1): H, ((("b",),), (), (), 1): H}:
+        raise core.HarnessError(f"C19 reference self-check 9: {law}")
+    # shuffle S, R, O: S sets f0 = 1 and ends without consuming a step, R needs f0 == 1.
+    #   first pick among S, O (1/2 each).  S first: still step 0, R is eligible now: R or O
+    #   (1/4 each).  O first: step 1, S (R not eligible), then R in the same step.
+    never = {"z": [0] * 8}
+    d10 = [{"name": "A", "pre": None, "body": [["set", "f0", 1], ["cond", "z", [["take", "zz"]]]]},
+           {"name": "B", "pre": [["flag", "f0", 1]], "body": [["take", "r"]]},
+           {"name": "C", "pre": None, "body": [["take", "o"]]}]
+    p10 = dict(base, defs=d10, table=never,
+               main=[["shuffle", "list", [["A", 1], ["B", 1], ["C", 1]]]])
+    law, flags, _ = ref_law(p10)
+    if law != {((("r",), ("o",)), (), (), 2): Q, ((("o",), ("r",)), (), (), 2): 3 * Q} \
+            or "eligibility-changed-within-step" not in flags:
+        raise core.HarnessError(f"C19 reference self-check 10: {law} {flags}")
+    # one object of B offered twice in step 0: not eligible, then (A has set f0) eligible
+    p11 = dict(base, defs=d10, table=never,
+               main=[["bind", "b0", "B"], ["choose", "list", [["$b0", 1], ["A", 1]]],
+                     ["choose", "dict", [["$b0", 3], ["C", 1]]]])
+    law, flags, _ = ref_law(p11)
+    if law != {((("r",),), (), (), 1): 3 * Q, ((("o",),), (), (), 1): Q} \
+            or "shared-object-eligibility-changed-within-step" not in flags:
+        raise core.HarnessError(f"C19 reference self-check 11: {law} {flags}")
+    # ... and an object that has run is not judged when offered again
+    law, _, _ = ref_law(dict(p11, main=p11["main"] + [["choose", "list", [["$b0", 1], ["C", 1]]]]))
+    if "UNDEFINED" not in law:
+        raise core.HarnessError(f"C19 reference self-check 12: {law}")
+    src = emit(dict(p11, flagstore="attr"))
+    for frag in ("precondition: self.f0 == 1", "self.f0 = 1", "_b0 = B()", "do choose _b0, A()",
+                 "do choose {_b0: 3, C(): 1}", "with f0 0"):
+        if frag not in src:
+            raise core.HarnessError(f"C19 emitter self-check: {frag!r} missing in\n{src}")
+    src = emit(p7)
+    if "precondition: T('p')\n    precondition: T('q')" not in src:
+        raise core.HarnessError(f"C19 emitter self-check (two preconditions):\n{src}")
     _selfchecked = True
 
 
@@ -407,7 +571,16 @@ def dists(draw):
 def programs(draw):
     level = draw(st.sampled_from(["behavior", "scenario", "behavior"]))
     beh = level == "behavior"
-    ndefs = draw(st.sampled_from([2, 3, 4, 3, 2, 1]))
+    # plain: preconditions read the step-indexed table only.  state: some items set flags, some
+    # preconditions read them (item A ends without consuming a step after setting f0, item B's
+    # preconditions read f0).  shared: additionally one object of B is bound to a variable and
+    # offered by two consecutive statements.
+    mode = draw(st.sampled_from(["plain", "plain", "plain", "state", "state", "shared"]))
+    if mode == "shared" and not beh:
+        mode = "state"
+    stateful = mode != "plain"
+    ndefs = draw(st.sampled_from([2, 3, 4, 3] if stateful else [2, 3, 4, 3, 2, 1]))
+    store = draw(st.sampled_from(["harness", "attr"])) if stateful and beh else "harness"
     table = {}
 
     def row(kind):
@@ -453,18 +626,85 @@ def programs(draw):
                 body.append(["take", f"{tagbase}.z"] if beh else ["wait"])
         return body
 
+    def a_flag():
+        return draw(st.sampled_from(["f0", "f0", "f1"]))
+
+    def a_set(flag=None):
+        return ["set", flag or a_flag(), draw(st.sampled_from([1, 1, 0]))]
+
+    def instant_setter_body(flag):
+        body = [["set", flag, 1], ["cond", row("never"), [["take", "zz"] if beh else ["wait"]]]]
+        if draw(st.booleans()):
+            body.insert(draw(st.integers(0, 1)), ["log", f"s{draw(st.integers(0, 9))}"])
+        if draw(st.integers(0, 3)) == 3:  # and another flag, so that `flag` stays 1
+            body.insert(draw(st.integers(0, 1)), a_set("f1" if flag == "f0" else "f0"))
+        return body
+
+    def preconditions(reader, flag=None):
+        # (the item that follows an instantaneous one is picked in the same step, typically step
+        # 0: its table rows should mostly hold early, or the shuffle just deadlocks)
+        pk = draw(st.sampled_from([None, "mostly1", None, None, "mostly1", None, "early", "early",
+                                   "random"] if flag else
+                                  [None, "mostly1", None, None, "mostly1", None, "late", "early",
+                                   "random"]))
+        conds = [row(pk)] if pk else []
+        # further preconditions: the deciding one is then often not the first
+        nextra = draw(st.sampled_from([0, 0, 0, 1, 1, 2] if conds else [0, 0, 0, 0, 0, 0, 2]))
+        for _ in range(nextra):
+            conds.append(row(draw(st.sampled_from(["mostly1", "early", "random", "mostly1",
+                                                   "mostly1"] if flag else
+                                                  ["late", "early", "random", "mostly1",
+                                                   "mostly1"]))))
+        if nextra and draw(st.booleans()):
+            conds = list(draw(st.permutations(conds)))
+        if reader:
+            c = ["flag", flag or a_flag(), 1 if flag else draw(st.sampled_from([1, 1, 1, 0]))]
+            conds.insert(draw(st.integers(0, len(conds))), c)
+        if not conds:
+            return None
+        return conds[0] if len(conds) == 1 and isinstance(conds[0], str) else conds
+
     defs = []
     for i in range(ndefs):
-        pk = draw(st.sampled_from([None, "mostly1", None, None, "mostly1", None, "late", "early",
-                                   "random"]))
-        defs.append({"name": NAMES[i], "pre": row(pk) if pk else None,
-                     "body": simple_body(True)})
+        if stateful and i == 0:  # A: sets f0 and ends within the step
+            pre = preconditions(False) if draw(st.integers(0, 3)) == 3 else None
+            defs.append({"name": NAMES[i], "pre": pre, "body": instant_setter_body("f0")})
+            continue
+        if stateful and i == 1:  # B: reads f0
+            defs.append({"name": NAMES[i], "pre": preconditions(True, "f0"),
+                         "body": simple_body(False)})
+            continue
+        role = draw(st.sampled_from(["none", "reader", "setter", "instant-setter", "both",
+                                     "none"])) if stateful else "none"
+        if role == "instant-setter":
+            body = instant_setter_body(a_flag())
+        else:
+            body = simple_body(True)
+            if role in ("setter", "both"):
+                body.insert(draw(st.sampled_from([0, len(body)])), a_set())
+        defs.append({"name": NAMES[i], "pre": preconditions(role in ("reader", "both")),
+                     "body": body})
 
-    def items(kind, first=False):
+    if stateful:  # a precondition waiting for a flag nobody raises is just a dead item
+        raised = {s[1] for d in defs for s in d["body"] if s[0] == "set" and s[2] == 1}
+        for d in defs:
+            for c in pres_of(d):
+                if not isinstance(c, str) and c[2] == 1 and c[1] not in raised:
+                    c[1] = "f0"
+
+    has_n = [False]
+
+    def items(kind, first=False, outer=False):
         n = min(ndefs, draw(st.sampled_from([2, 3, 4, 2, 3] if first else [2, 3, 1, 2, 3, 4])))
-        names = list(draw(st.permutations(NAMES[:ndefs])))[:n]
+        if stateful and first:  # the setter, the reader, then others
+            rest = list(draw(st.permutations(NAMES[2:ndefs])))[:max(0, n - 2)]
+            names = list(draw(st.permutations(NAMES[:2] + rest)))
+        else:
+            names = list(draw(st.permutations(NAMES[:ndefs])))[:n]
         if len(names) < 4 and draw(st.integers(0, 5)) == 5:  # the same behaviour listed twice
             names.append(draw(st.sampled_from(names)))
+        if outer and has_n[0] and draw(st.integers(0, 2)) == 2:  # the nested scheduler as an item
+            names[draw(st.integers(0, len(names) - 1))] = "N"
         form = draw(st.sampled_from(["dict", "list", "dict"]))
         distinct = list(draw(st.permutations([1, 2, 3, 0.5, 0.25, 1.5])))
         iid = draw(st.integers(0, 3)) == 3
@@ -476,21 +716,41 @@ def programs(draw):
             out.append([nm, w])
         return form, out
 
-    def sched(first=False):
+    def sched(first=False, outer=False):
         kind = draw(st.sampled_from(["shuffle", "choose", "shuffle"]))
-        form, its = items(kind, first)
+        if stateful and first and kind == "choose" and draw(st.booleans()):
+            kind = "shuffle"
+        form, its = items(kind, first, outer)
         return [kind, form, its]
 
     # one nested level: an extra definition whose body itself schedules
-    if ndefs < 4 and draw(st.integers(0, 3)) == 3:
+    if ndefs < 4 and draw(st.integers(0, 3 if not stateful else 1)) == 0:
         inner = sched()
         defs.append({"name": "N", "pre": row("mostly1") if draw(st.booleans()) else None,
                      "body": [["log", "N"], inner]})
-    main = [sched(True)]
+        has_n[0] = True
+    if mode == "shared":
+        # _b0 = B(); do choose _b0, A()[, X()]; do choose/shuffle _b0, Y()...: the first statement
+        # consults B's preconditions while f0 is 0; if it runs A (which ends within the step) the
+        # second statement consults the very same object again in that step.
+        form1, first_items = items("choose", True, False)
+        first_items = [["$b0" if n == "B" else n, w] for n, w in first_items]
+        seen = set()
+        first_items = [[n, w or 1] for n, w in first_items if not (n in seen or seen.add(n))]
+        kind2 = draw(st.sampled_from(["choose", "shuffle"]))
+        form2, second_items = items(kind2, False, True)
+        second_items = [[n, w] for n, w in second_items if n != "B"][:2]
+        second_items.insert(draw(st.integers(0, len(second_items))),
+                            ["$b0", draw(st.sampled_from([1, 2, 3, 0.5]))])
+        main = [["bind", "b0", "B"], ["choose", form1, first_items], [kind2, form2, second_items]]
+    else:
+        main = [sched(True, True)]
     for _ in range(draw(st.integers(0, 2))):
         c = draw(st.sampled_from(["sched", "sched", "sched", "repeat", "dist", "var", "nested"]))
+        if stateful and draw(st.integers(0, 3)) == 3:
+            main.append(["set", a_flag(), draw(st.sampled_from([0, 1]))])
         if c == "sched":
-            main.append(sched())
+            main.append(sched(False, True))
         elif c == "repeat":
             main.append(["repeat", 2, [["choose"] + list(items("choose"))]])
         elif c == "dist":
@@ -503,10 +763,10 @@ def programs(draw):
             main.append(["letdist", "x", d])
             main += [["takevar", "x"], ["takevar", "x"]] if beh else \
                 [["logvar", "x"], ["wait"], ["logvar", "x"]]
-        elif c == "nested" and any(d["name"] == "N" for d in defs):
+        elif c == "nested" and has_n[0]:
             main.append(["do", "N"] if defs[-1]["pre"] is None else ["choose", "list", [["N", 1]]])
         else:
-            main.append(sched())
+            main.append(sched(False, True))
     if not beh and not any(s[0] in ("wait", "choose", "shuffle", "do", "repeat") for s in main):
         main.append(["wait"])
     monitor = draw(st.integers(0, 3)) == 3
@@ -520,8 +780,11 @@ def programs(draw):
         for i in draw(st.lists(st.integers(0, 4), min_size=1, max_size=2)):
             table["ego"][i] = 1
     truncated = draw(st.integers(0, 5)) == 5
-    return {"level": level, "defs": defs, "main": main, "monitor": monitor, "egodraw": egodraw,
+    prog = {"level": level, "defs": defs, "main": main, "monitor": monitor, "egodraw": egodraw,
             "table": table, "maxSteps": draw(st.integers(1, 4)) if truncated else GENEROUS_STEPS}
+    if stateful:
+        prog["flagstore"] = store
+    return prog
 
 
 # ----------------------------------------------------------------------------------------------
@@ -551,12 +814,29 @@ def features(prog):
                 walk(s[2])
             elif s[0] == "do":
                 feats.add("plain-do")
+            elif s[0] == "set":
+                feats.add("sets-flag")
+            elif s[0] == "bind":
+                feats.add("object-bound-to-variable")
+            if s[0] in ("choose", "shuffle") and any(n == "N" for n, _ in s[2]):
+                feats.add("nested-scheduler-as-item")
 
     walk(prog["main"])
+    if flags_of(prog):
+        feats.add("flagstore:" + prog.get("flagstore", "harness"))
     for d in prog["defs"]:
         walk(d["body"])
         if d["pre"]:
             feats.add("precondition")
+        pres = pres_of(d)
+        if len(pres) >= 2:
+            feats.add("preconditions:2+")
+        if any(not isinstance(c, str) for c in pres):
+            feats.add("precondition-reads-flag")
+        instant = not any(s[0] in ("take", "takedist", "wait", "takevar", "choose", "shuffle")
+                          for s in d["body"])
+        if instant and any(s[0] == "set" for s in d["body"]):
+            feats.add("instant-item-sets-flag")
         if d["name"] == "N":
             feats.add("nested-scheduler")
         if not any(s[0] in ("take", "takedist", "wait", "takevar", "choose", "shuffle")
@@ -626,6 +906,7 @@ def judge(prog):
     table = prog["table"]
 
     def one():
+        c19_flags.reset()
         r = ts.run(scene, table, prog["maxSteps"])
         if not r.accepted:
             return ("REJECTED", r.rejected_at)
